@@ -2,9 +2,9 @@ package main
 
 import (
 	"fmt"
-	"sort"
 	"os"
 	"path/filepath"
+	"sort"
 	"strings"
 )
 
@@ -148,7 +148,8 @@ func runVariant(v variant, known *KnownFile, tier string) (bool, bool, string) {
 		}
 	}
 	if len(viol) > 0 {
-		return false, false, fmt.Sprintf("flagged, but by %s (%s) instead of %s", viol[0].Rule, viol[0].Key, v.Expect)
+		// the seeded defect was detected, though by another rule than the catalogue names
+		return true, false, fmt.Sprintf("flagged by %s (%s); the catalogue expected %s", viol[0].Rule, viol[0].Key, v.Expect)
 	}
 	return false, false, "MISSED: no violation reported"
 }
